@@ -15,7 +15,8 @@ from ..core import Engine, RunResult
 from .. import docgen, shared_state
 
 CONFIG_KINDS = {"construct", "enable", "disable", "opt_item", "opt_attr", "set", "configure", "render_rule", "use",
-                "bad_config", "ruler", "set_from", "construct_from", "hook", "highlight", "enable_only", "at_alt"}
+                "bad_config", "ruler", "set_from", "construct_from", "hook", "highlight", "enable_only", "at_alt",
+                "link_policy"}
 # ops whose effect on instance j depends on the configuration of ANOTHER instance at that moment; the expectation
 # world then replays the configuration ops of every instance (never the parses)
 CROSS_CONFIG_KINDS = {"set_from", "construct_from", "hook"}
@@ -34,6 +35,9 @@ STATEFUL_DOCS = [
     "> q\n***\n> r\n# h\n> s\n- l\n\n- a\n***\n- b\n  # h\n\n[r]: /u\n'title\n# h'\n",
     "> quoted\n> - item\n>   @@!\n> more\n", "- a\n- b\n  @@!\n- c\n", "1. x\n\n   > y\n   @@!\n",
 ]
+# destinations on which the link policies below disagree with the default hooks and with each other
+LINK_LINES = ["[a](javascript:alert(1)) [b](/Same) ![i](/Same)", "[c](vbscript:foo) <http://Same.x/> [b](/Same 't')",
+              "[d](/Same) [e](/Other) [f](JAVASCRIPT:x)"]
 OPT_VALUES = {"html": [True, False], "typographer": [True, False], "breaks": [True, False], "xhtmlOut": [True, False],
               "langPrefix": ["language-", "l-"], "quotes": ["“”‘’", "«»‹›"], "maxNesting": [2, 5, 20, 100],
               "inline_definitions": [True, False], "store_labels": [True, False]}
@@ -245,8 +249,13 @@ def gen(rng: random.Random, tier: str) -> dict:
         elif r < 0.915:
             # a user hook on instance j that uses instance i (possibly j itself) while j is parsing
             i = rng.randrange(n_inst)
-            ops.append(["hook", j, rng.choice(["normalizeLink", "validateLink", "normalizeLinkText"]), i,
-                        rng.choice(["[q](/hooked 'h') `c`", "*e* [z][foo] <http://in.hook/>", "x"])])
+            if rng.random() < 0.45:
+                # a link policy of this instance's own (the documented way to allow/forbid/rewrite destinations): the
+                # verdict on one raw destination then differs between instances of one process
+                ops.append(["link_policy", j, rng.choice(["allow", "deny_same", "deny", "lower", "tag"])])
+            else:
+                ops.append(["hook", j, rng.choice(["normalizeLink", "validateLink", "normalizeLinkText"]), i,
+                            rng.choice(["[q](/hooked 'h') `c`", "*e* [z][foo] <http://in.hook/>", "x"])])
         elif r < 0.935:
             ops.append(["highlight", j, rng.randrange(3)])
         elif r < 0.96:
@@ -268,6 +277,10 @@ def gen(rng: random.Random, tier: str) -> dict:
         elif armed and op[0] == "call" and "Inline" not in op[2] and rng.random() < 0.35:
             op[3] = op[3] + rng.choice(["\n```py\nRAISE\n```\n", "\n```py a=1\nfine\n```\n", "\nx @! y `RAISE`\n", "\n`RAISE`\n",
                                         "\n> q\n> - i\n>   @@!\n> z\n", "\n- a\n- b\n  @@!\n"])
+    if any(op[0] == "link_policy" for op in ops):
+        for op in ops:
+            if op[0] == "call" and rng.random() < 0.6:
+                op[3] = op[3] + ("\n\n" if "Inline" not in op[2] else " ") + rng.choice(LINK_LINES) + ("\n" if "Inline" not in op[2] else "")
     probes = []
     seen_docs = [op for op in ops if op[0] == "call"]
     for _ in range(rng.randint(1, 4)):
@@ -286,6 +299,8 @@ def gen(rng: random.Random, tier: str) -> dict:
                 d = "\n".join(ln for ln in d.split("\n") if not ln.lstrip(" >").startswith("[") or "]:" not in ln)
             elif k < 0.55:
                 d = d + "\n\n[foo]: /other-foo\n[x]: /other-x\n[ref]: /other-ref 'T'\n"
+        if any(op[0] == "link_policy" for op in ops) and rng.random() < 0.6:
+            d = d + ("\n\n" if "Inline" not in m else " ") + rng.choice(LINK_LINES) + ("\n" if "Inline" not in m else "")
         probes.append([j, m, d, rng.choice(["omit", "fresh"])])
     for op in [o for o in ops if o[0] == "at_alt"][:1]:
         # the customised instance and a bystander on the same terminator-sensitive text
@@ -358,6 +373,16 @@ class _World:
                             world.hook_depth -= 1
                     return _prev(url)
                 setattr(md, op[2], hook)
+            elif kind == "link_policy":
+                v, tag = op[2], f"i{j}"
+                if v in ("allow", "deny", "deny_same"):
+                    prev = md.validateLink
+                    md.validateLink = {"allow": lambda url: True, "deny": lambda url: False,
+                                       "deny_same": lambda url, _p=prev: "same" not in url.lower() and _p(url)}[v]
+                else:
+                    prev = md.normalizeLink
+                    md.normalizeLink = {"lower": lambda url, _p=prev: _p(url).lower(),
+                                        "tag": lambda url, _p=prev, _t=tag: _p(url) + "?via=" + _t}[v]
             elif kind == "highlight":
                 md.options["highlight"] = _highlighter(op[2])
             elif kind == "at_alt":
@@ -597,6 +622,8 @@ def execute(rec: dict, res: RunResult) -> None:
                 res.count("render_rule_added")
             elif kind == "hook" and e is None:
                 res.count("link_hook_using_an_instance_installed")
+            elif kind == "link_policy" and e is None:
+                res.count("instance_link_policy_installed")
             elif kind == "highlight":
                 res.count("raising_highlighter_installed")
             elif kind in CROSS_CONFIG_KINDS and e is None:
@@ -718,7 +745,7 @@ class C12(Engine):
                        "option_route_ctor", "option_route_item", "option_route_attr", "failed_documented_call",
                        "render_rule_added", "definitions_parsed_in_history", "caller_mutated_returned_objects",
                        "options_object_handed_to_other_instance", "link_hook_using_an_instance_installed",
-                       "raising_highlighter_installed", "user_callback_raised_in_history", "reset_rules_block_around_a_parse",
+                       "instance_link_policy_installed", "raising_highlighter_installed", "user_callback_raised_in_history", "reset_rules_block_around_a_parse",
                        "stateful_renderer_class_used", "constructed_without_options_update"]
 
     def budget(self, tier):
